@@ -29,6 +29,12 @@ static void conv_case(uint64_t nn, unsigned rep) {
   uint64_t* b3 = gb_alloc(&gb3, nn * 32, 8, 8 * ((rep + 5) % 8), 4096);
   uint32_t* c3 = gb_alloc(&gc3, nn * 32, 8, 8 * ((rep + 6) % 8), 4096);
   for (uint64_t i = 0; i < nn; i++) x[i] = special_i64(r, i + (rep ? 14 : 0));
+  // structure on the whole vector for two repetitions in three (runs, periods, values next to their 32-bit truncation,
+  // multiples of 2^32, neighbourhoods of powers of two ...); full-range int64, so the extremes stay as they are
+  if (rep % 3) {
+    if (rep % 3 == 2) for (uint64_t i = 0; i < nn; i++) x[i] = (int64_t)rng_u64(r);
+    structure_words(r, (uint64_t*)x, nn, 63);
+  }
   gb_prefill(&gb, (int)rep, 1);
   gb_prefill(&gc, (int)rep + 1, 2);
   gb_prefill(&gz, (int)rep + 2, 3);
